@@ -939,7 +939,7 @@ static void checkC20(Ctx& c, long i, Rng& r) {
         // "as the step shrinks": if the order seen at (h, h/2, h/4) is deficient the step is halved up to three
         // more times (pre-asymptotic cancellation of the leading error term is not a violation); the verdict
         // uses the finest pair measured above the round-off floor.
-        std::vector<double> e; double pBest = 0, p01 = 0; int kUsed = 0;
+        std::vector<double> e; double pBest = 0, p01 = 0; int kUsed = 0; bool floorHit = false;
         for (int k = 0; k < 6; ++k) {
             // accuracy only matters for Verlet here (tolerance of its functional iteration); the step is fixed
             RunResult x = runSim(c, def, kind, 1e-8, false, h0 / (1 << k), T, samples, false);
@@ -947,11 +947,13 @@ static void checkC20(Ctx& c, long i, Rng& r) {
             e.push_back(std::max(std::max(x.eEnd, x.eStepMax), x.eInterpMax));
             if (k == 1) p01 = std::log2(e[0] / e[1]);
             if (k < 2) continue;
-            if (!(e[k] > 1e-11 * (1 + rhoT))) { if (k == 2) { c.skip("order:error-at-roundoff-floor"); return; } e.pop_back(); break; }
+            if (!(e[k] > 1e-11 * (1 + rhoT))) { if (k == 2) { c.skip("order:error-at-roundoff-floor"); return; } e.pop_back(); floorHit = true; break; }
             kUsed = k;
             pBest = std::max(0.5 * std::log2(e[k - 2] / e[k]), std::log2(e[k - 1] / e[k]));
             if (pBest >= pDoc - 0.3) break;
         }
+        // still (slightly) deficient but the next halving is already at the round-off floor: cannot decide
+        if (floorHit && pBest < pDoc - 0.3) { c.skip("order:deficient-at-coarse-steps,refinement-hits-roundoff-floor"); return; }
         c.cover(name + "|" + cls + "|fixed-step-order");
         if (kUsed > 2) c.obs("order:extra-halvings-needed:" + name);
         if (calib) fprintf(stderr, "CAL B %s %s pDoc=%d p02=%.3f p01=%.3f p12=%.3f kUsed=%d rh=%.3g\n", name.c_str(), cls.c_str(), pDoc, pBest, p01, pBest, kUsed, rh);
